@@ -277,4 +277,78 @@ NCLoop(S, c) ==
                 ELSE Let(Unexp(nl[2]), LAMBDA u : <<<<"err", u[1]>>, u[2]>>))))
 
 NextClause(S, c) == NCLoop(SkipWs(S), c)
+
+(***************************************************************************)
+(* sat_solver_log.rs: parse_log.  `ignoreHeader` is Config::ignore_unknown *)
+(* _lines here.  The loop state is <<satisfiable, started, finished, lits>> *)
+(* with satisfiable one of "unset", "sat", "unsat", "unknown".             *)
+(***************************************************************************)
+\* token::fixed: the bytes, nothing else (no end-of-word test, no blanks skipped)
+Fixed(S, w) ==
+  Let(<<FixedNeed(vis, Pos(S), w), FixedEnd(vis, Pos(S), w)>>, LAMBDA ne :
+  Let(IF ne[1] = None THEN S ELSE Saw(S, ne[1]), LAMBDA S1 :
+      IF ne[2] # Pos(S) THEN <<"ok", SetPos(S1, ne[2]), 0>> ELSE <<"ft", S1, 0>>))
+
+\* interactive_strict_comment: "c " up to and including the next newline, nothing more
+StrictComment(S) ==
+  IF FixedEnd(vis, Pos(S), <<99, 32>>) = Pos(S) THEN <<"ft", Saw(S, FixedNeed(vis, Pos(S), <<99, 32>>)), 0>>
+  ELSE Let(NextNlPos(vis, Pos(S) + 2), LAMBDA q :
+       Let(IF At(vis, q) = None THEN q ELSE q + 1, LAMBDA e :
+       <<"ok", SetPos(NewLine(Saw(S, q), e), e), 0>>))
+RECURSIVE SkipStrictComments(_)
+SkipStrictComments(S) == Let(StrictComment(S), LAMBDA c : IF c[1] = "ok" THEN SkipStrictComments(c[2]) ELSE c[2])
+
+\* interactive_skip_line: a whole line (at least one byte), whatever it contains
+SkipLine(S) ==
+  Let(NextNlPos(vis, Pos(S)), LAMBDA q :
+  Let(IF At(vis, q) = None THEN q ELSE q + 1, LAMBDA e :
+  IF e # Pos(S) THEN <<"ok", SetPos(NewLine(Saw(S, q), e), e), 0>> ELSE <<"ft", Saw(S, q), 0>>))
+
+\* the literals of one value line: <<"ok" | "err", S', lits, finished, error>>
+RECURSIVE ValueLits(_, _)
+ValueLits(S, acc) ==
+  Let(SInt(SetMark(S), "isize"), LAMBDA n :
+  CASE n[1] = "ovf" -> <<"err", n[2], acc, FALSE, GiveUpAt(n[2], Mark(n[2]))>>
+    [] n[1] = "ok"  -> IF IsZero(n[3][2]) THEN <<"ok", n[2], acc, TRUE, 0>>
+                       ELSE IF ~Leq(n[3][2], MaxDimacs) THEN <<"err", n[2], acc, FALSE, GiveUpAt(n[2], Mark(n[2]))>>
+                       ELSE ValueLits(n[2], Append(acc, n[3]))
+    [] OTHER        -> <<"ok", n[2], acc, FALSE, 0>>)
+
+Sat == <<83, 65, 84, 73, 83, 70, 73, 65, 66, 76, 69>>
+Unsat == <<85, 78>> \o Sat
+Unknown == <<85, 78, 75, 78, 79, 87, 78>>
+
+RECURSIVE LogLoop(_, _, _)
+\* st = <<satisfiable, started, finished, lits>>; fuel bounds the recursion by the input length
+LogLoop(S0, st, fuel) ==
+  Let(SkipStrictComments(S0), LAMBDA S :
+  Let(IF ~st[3] THEN Fixed(S, <<118, 32>>) ELSE <<"ft", S, 0>>, LAMBDA v :
+  IF v[1] = "ok" THEN
+    Let(ValueLits(SkipWs(v[2]), st[4]), LAMBDA vl :
+    IF vl[1] = "err" THEN <<<<"err", vl[5]>>, vl[2]>>
+    ELSE Let(IEol(vl[2]), LAMBDA e :
+         IF e[1] # "ok" THEN Let(Unexp(e[2]), LAMBDA u : <<<<"err", u[1]>>, u[2]>>)
+         ELSE LogLoop(e[2], <<st[1], TRUE, vl[4], vl[3]>>, fuel - 1)))
+  ELSE
+  Let(IF st[1] = "unset" THEN Fixed(v[2], <<115, 32>>) ELSE <<"ft", v[2], 0>>, LAMBDA sl :
+  IF sl[1] = "ok" THEN
+    Let(Fixed(sl[2], Sat), LAMBDA a :
+    Let(IF a[1] = "ok" THEN a ELSE Fixed(a[2], Unsat), LAMBDA b :
+    Let(IF b[1] = "ok" THEN b ELSE Fixed(b[2], Unknown), LAMBDA c :
+    IF c[1] # "ok" THEN Let(Unexp(c[2]), LAMBDA u : <<<<"err", u[1]>>, u[2]>>)
+    ELSE Let(IEol(c[2]), LAMBDA e :
+         IF e[1] # "ok" THEN Let(Unexp(e[2]), LAMBDA u : <<<<"err", u[1]>>, u[2]>>)
+         ELSE LogLoop(e[2], <<IF a[1] = "ok" THEN "sat" ELSE IF b[1] = "ok" THEN "unsat" ELSE "unknown", st[2], st[3], st[4]>>,
+                      fuel - 1)))))
+  ELSE
+  Let(Eof(sl[2]), LAMBDA e :
+  IF e[1] = "ok" THEN
+    IF st[2] /\ ~st[3] THEN Let(Unexp(e[2]), LAMBDA u : <<<<"err", u[1]>>, u[2]>>)
+    ELSE <<<<"ok", <<"log", IF st[1] \in {"unset", "unknown"} THEN "unknown" ELSE st[1], LitStrs(st[4])>>>>, e[2]>>
+  ELSE
+  Let(IF ignoreHeader THEN SkipLine(e[2]) ELSE <<"ft", e[2], 0>>, LAMBDA sk :
+  IF sk[1] = "ok" /\ fuel > 0 THEN LogLoop(sk[2], st, fuel - 1)
+  ELSE Let(Unexp(sk[2]), LAMBDA u : <<<<"err", u[1]>>, u[2]>>))))))
+
+ParseLog == LogLoop(PS0, <<"unset", FALSE, FALSE, <<>>>>, Len(vis) + 2)
 =============================================================================
